@@ -71,4 +71,16 @@ def demandOrdersByStatusPrefix (st : Status) : Bytes := statusBytes st
 /-- x/delayedack `PendingPacketsByAddressKeyPrefix` -/
 def pendingPacketsByAddressPrefix : Bytes := [1]
 
+/-! ### the buffer primitives the translated body of `DecodePacketKey` is written in -/
+
+/-- `base64.StdEncoding.DecodedLen(n)` (padded encoding): `n / 4 * 3` -/
+def b64DecodedLen (n : Nat) : Nat := n / 4 * 3
+
+/-- `n, err := base64.StdEncoding.Decode(dst, src)` on success: the decoded bytes are written at the
+    front of `dst` (the rest of the buffer keeps what it held) and `n` is their number -/
+def b64DecodeInto (dst src : Bytes) : Option (Bytes × Nat) :=
+  match b64dec src with
+  | none => none
+  | some d => some (d ++ dst.drop d.length, d.length)
+
 end DymVerif.Keys
